@@ -61,7 +61,7 @@ class C08(vlib.Check):
             keys = rng.choice([[], ["pi"], ["pf", "pb"], ["pi", "pf", "pb", "ps"], ["_pi"], ["pi", "_pi", "__ps"]])
             nrows = rng.randint(1, 6)
             fps = [gen_fpin(rng, kind, bits, level, keys, none_names=True) for _ in range(nrows)]
-            name_mode = rng.choice(["mixed", "all-str", "all-none", "dups"])
+            name_mode = rng.choice(["mixed", "all-str", "all-none", "dups", "empty-string"])
             for j, f in enumerate(fps):
                 if name_mode == "all-str":
                     f["name"] = "n%d" % j
@@ -69,6 +69,8 @@ class C08(vlib.Check):
                     f["name"] = None
                 elif name_mode == "dups":
                     f["name"] = "same"
+                elif name_mode == "empty-string" and j % 2 == 0:
+                    f["name"] = ""          # a name that is the empty string is a name, not a missing name
             t = rng.choice(["rt", "rt", "rt", "txt"])
             build = rng.choice(["add", "add", "from_array", "from_array_unsorted"])
             case = {"t": t, "kind": kind, "bits": bits, "level": level, "name": rng.choice([None, "DB", "x y"]),
@@ -90,6 +92,11 @@ class C08(vlib.Check):
                 case["ext"] = rng.choice([".txt", ".txt.gz", ".txt.bz2"])
             if build == "from_array_unsorted":
                 case["perm_seed"] = rng.randrange(10 ** 6)
+            if t == "rt" and rng.random() < 0.35:
+                # columns given to the database itself with set_prop, under keys a save format might treat specially
+                case["setprops"] = [[key, [{"s": "%s%d" % (key[:1] or "v", j)} for j in range(nrows)]]
+                                    for key in rng.sample(["Name", "name", "array", "bits", "fp_names", "level", "_", "fp_type"], rng.randint(1, 2))]
+                self.count("set_prop-special-keys")
             self.count("t:" + t)
             self.count("build:" + build)
             self.count("kind:" + case["kind"])
@@ -117,6 +124,12 @@ class C08(vlib.Check):
         return [[k, [dict(f["props"])[k] for f in case["fps"]]] for k in keys]
 
     def _build(self, case):
+        db = self._build0(case)
+        for key, vals in case.get("setprops", []):
+            db.set_prop(key, np.array([unpval(v) for v in vals]))
+        return db
+
+    def _build0(self, case):
         kind = case["kind"]
         if case["build"] == "add":
             db = FingerprintDatabase(fp_type=CLS[kind], level=case["level"], name=case["name"])
@@ -136,6 +149,9 @@ class C08(vlib.Check):
                                               name=case["name"], props=props)
 
     def _model_build(self, case):
+        return self._model_build0(case) + [{"op": "db.set_prop", "id": "d", "key": key, "vals": vals} for key, vals in case.get("setprops", [])]
+
+    def _model_build0(self, case):
         if case["build"] == "add":
             return [{"op": "db.reset"}, {"op": "db.new", "id": "d", "kind": case["kind"], "level": case["level"], "name": case["name"]},
                     {"op": "db.add", "id": "d", "fps": case["fps"]}]
@@ -195,7 +211,7 @@ class C08(vlib.Check):
         return ops
 
     def model_answer(self, case, answers):
-        nb = 3
+        nb = 3 + len(case.get("setprops", []))
         if any("err" in a or "driver_error" in a for a in answers[:nb]):
             return {"err": "build", "answers": answers[:nb]}
         if case["t"] == "txt":
